@@ -339,8 +339,13 @@ func c03(env *Env, rep *Report) {
 	// must not change what the second may reach
 	for _, mode := range []string{"roundrobin", "unsigned"} {
 		for _, token := range []bool{false, true} {
-			for _, u1 := range []string{"alice", "bob"} {
-				for _, u2 := range []string{"alice", "bob", "carol"} {
+			// (long account names that differ only behind their 32nd / 64th / 128th byte are different users)
+			long := func(k int) string { return strings.Repeat("v", k) }
+			for _, u1 := range []string{"alice", "bob", long(32), long(64), long(128)} {
+				for _, u2 := range []string{"alice", "bob", "carol", long(32) + "0", long(64) + "0", long(128) + "0"} {
+					if len(u1) > 8 && u2 != u1+"0" || len(u1) <= 8 && len(u2) > 8 {
+						continue
+					}
 					n++
 					if !env.mine(n) {
 						continue
